@@ -13,6 +13,12 @@ pub fn run(cfg: &RunCfg, agg: &Mutex<Agg>) {
     run_cases(agg, cfg, "linearity", crate::count(cfg, 6000, 150_000), |cs, out| {
         case(&mut Rng::new(cs), out);
     });
+    // few shards of 4 / 8 MiB (block counts on a 16-bit boundary), dense data
+    run_cases(agg, cfg, "linearity-long-shards", if cfg.thorough { 16 } else { 3 }, |cs, out| {
+        LONG.with(|l| l.set(true));
+        case(&mut Rng::new(cs), out);
+        LONG.with(|l| l.set(false));
+    });
 }
 
 fn xor(a: &[Vec<u8>], b: &[Vec<u8>]) -> Vec<Vec<u8>> {
@@ -32,12 +38,26 @@ fn scale(a: &[Vec<u8>], c: u16) -> Vec<Vec<u8>> {
         .collect()
 }
 
+thread_local! {
+    static LONG: std::cell::Cell<bool> = const { std::cell::Cell::new(false) };
+}
+
 fn case(rng: &mut Rng, out: &mut CaseOut) {
     let rate = gen::rate(rng);
     let class = gen::class_mix(rng, true);
-    let (k, r) = gen::config(rng, class, rate);
-    let size = gen::shard_size(rng, k, r);
-    let api = gen::api(rng, rate, k, r);
+    let (mut k, mut r) = gen::config(rng, class, rate);
+    let mut size = gen::shard_size(rng, k, r);
+    if LONG.with(|l| l.get()) {
+        k = rng.range(2, 4);
+        r = rng.range(1, 4);
+        size = *rng.pick(&[4usize << 20, 4 << 20, (4 << 20) + 64, 8 << 20]);
+        out.tag("long-shards");
+    }
+    let api = if LONG.with(|l| l.get()) {
+        codec::Api::Rate(rate, *rng.pick(&codec::EngineKind::fast()))
+    } else {
+        gen::api(rng, rate, k, r)
+    };
     let poison = rng.chance(1, 2);
     let _p = Poison::new(poison, rng.next_u64());
     let a = gen::originals(rng, k, size);
